@@ -1704,7 +1704,7 @@ def camp_c18(rnd, tier):
             # the sequential answers are themselves judged by the clause tables
             for q in batch:
                 b.qg(o, q["m"], q["cs"], q["as"])
-            b.thr(o, rnd.choice([2, 8, 16]), rnd.choice([10, 30]) if tier == "quick" else rnd.choice([30, 200]), batch)
+            b.thr(o, rnd.choice([2, 8, 16]), rnd.choice([10, 30]) if tier == "quick" else rnd.choice([10, 40]), batch)
             b.pure(o, batch)
             b.drop(o)
     return b
